@@ -12,6 +12,8 @@ CONSTANTS
   Penalty = 2
   CooldownSkipsChecks = FALSE
   InvalidKeyNoPenalty = FALSE
+  Versions = {"cur"}
+  OldVersionSkipsPow = FALSE
 INVARIANTS C20_AcceptNeedsValidKey C20_AcceptNeedsValidPow C20_AcceptRegisters C20_RejectKeepsKeys C20_RejectLowersRep D_SessionIsKey
 VIEW View
 CONSTRAINT Bound
